@@ -28,6 +28,7 @@ It(key, val) == [key |-> key, val |-> val]
 IdK(v) == [k |-> "id", v |-> v]
 StrK(v) == [k |-> "str", v |-> v]
 For(coll, body) == [k |-> "for", coll |-> coll, body |-> body]
+Splat(e, key) == [k |-> "splat", e |-> e, key |-> key]
 
 LocS == R2("loc", "s")  LocN == R2("loc", "n")  LocB == R2("loc", "b")  LocL == R2("loc", "l")  LocO == R2("loc", "o")  LocM == R2("loc", "m")
 LocOK == Ref(<<St("root", "loc"), St("attr", "o"), St("attr", "k")>>)
@@ -101,6 +102,10 @@ Pairs ==
   \cup { <<AnyC("string"), Cond(Bin(">", Bin("+", LocN, Lit("number", "1")), LocN), LocS, Lit("string", "y"))>>,
          <<AnyC("number"), Cond(Bin("==", LocS, LocOK), Bin("+", LocN, Lit("number", "1")), Un("-", LocN))>>,
          <<AnyC("number"), Cond(Un("!", LocB), Lit("number", "10"), Call("max", <<LocN, Lit("number", "2")>>))>> }
+  \* a full splat followed by a computed key (alone, in a template, in a list, as an argument)
+  \cup { <<AnyC("dynamic"), Splat(LocL, k)>> : k \in {LocN, Bin("+", LocN, Lit("number", "1")), Call("max", <<LocN, SelfPw>>), Unk} }
+  \cup { <<AnyC("string"), Tmpl(<<Text("a-"), Splat(LocL, LocN)>>)>>, <<AnyC("list"), List(<<LocS, Splat(LocL, SelfPw)>>)>>,
+         <<AnyC("string"), Call("upper", <<Splat(LocM, LocS)>>)>> }
   \* a map whose elements are not strings: static and computed keys side by side
   \cup { <<AnyC("maplist"), Obj(<<It(IdK("a"), List(<<Lit("string", "c"), e>>)), It(LocS, List(<<Lit("string", "d"), Lit("string", "e")>>))>>)>> : e \in {LocS, Unk, Lit("string", "x")} }
   \cup { <<AnyC("maplist"), Obj(<<It(Lit("string", "q"), List(<<LocS>>)), It(StrK("b c"), List(<<>>))>>)>> }
@@ -124,7 +129,7 @@ HasSelf(e) == CASE e.k = "ref" -> IsSelf(e)
                 [] e.k = "bin" -> HasSelf(e.l) \/ HasSelf(e.r)
                 [] e.k \in {"un", "paren"} -> HasSelf(e.e)
                 [] e.k = "cond" -> HasSelf(e.c) \/ HasSelf(e.tt) \/ HasSelf(e.ff)
-                [] e.k = "index" -> HasSelf(e.e) \/ HasSelf(e.key)
+                [] e.k \in {"index", "splat"} -> HasSelf(e.e) \/ HasSelf(e.key)
                 [] e.k = "for" -> HasSelf(e.coll) \/ HasSelf(e.body)
                 [] OTHER -> FALSE
 
@@ -136,7 +141,7 @@ HasB(e) == CASE e.k = "ref" -> e.steps[1].v = "b"
              [] e.k = "bin" -> HasB(e.l) \/ HasB(e.r)
              [] e.k \in {"un", "paren"} -> HasB(e.e)
              [] e.k = "cond" -> HasB(e.c) \/ HasB(e.tt) \/ HasB(e.ff)
-             [] e.k = "index" -> HasB(e.e) \/ HasB(e.key)
+             [] e.k \in {"index", "splat"} -> HasB(e.e) \/ HasB(e.key)
              [] e.k = "for" -> HasB(e.coll) \/ HasB(e.body)
              [] OTHER -> FALSE
 
